@@ -599,6 +599,30 @@ var seqCheck = &core.Check{Name: "c06/sequence", Quick: 40000, Thorough: 4000000
 					return fmt.Errorf("CopyRemaining: ref %d differs", j)
 				}
 			}
+			// the copy is a cell of its own: its references are read from the start, and a reference added
+			// to it goes behind the copied ones
+			if cp.RefsAvailableForRead() != len(refs)-refPos {
+				return fmt.Errorf("CopyRemaining at ref cursor %d of %d: copy reports %d refs available", refPos, len(refs), cp.RefsAvailableForRead())
+			}
+			for j := refPos; j < len(refs); j++ {
+				got, err := cp.NextRef()
+				if err != nil || got != refs[j] {
+					return fmt.Errorf("CopyRemaining at ref cursor %d of %d: NextRef #%d on the copy gives %p,%v want %p", refPos, len(refs), j-refPos+1, got, err, refs[j])
+				}
+			}
+			if _, err := cp.NextRef(); err == nil {
+				return fmt.Errorf("CopyRemaining: NextRef past the copied refs succeeded")
+			}
+			if cp.RefsSize() < 4 {
+				extra := boc.NewCell()
+				if err := cp.AddRef(extra); err != nil {
+					return fmt.Errorf("CopyRemaining: AddRef on the copy (%d refs): %v", cp.RefsSize(), err)
+				}
+				rs := cp.Refs()
+				if rs[len(rs)-1] != extra {
+					return fmt.Errorf("CopyRemaining: a reference added to the copy is not the last one")
+				}
+			}
 			// cursors of the original must be unchanged: checked by the BitsAvailableForRead invariant
 			if cell.RefsAvailableForRead() != len(refs)-refPos {
 				return fmt.Errorf("CopyRemaining moved the ref cursor")
